@@ -13,7 +13,7 @@ pub fn def() -> PropDef {
     PropDef {
         info: PropInfo {
             id: "C09",
-            rule: "case = VM kind (no-data, raw, metadata, fixed-metadata with a generated pair of non-overlapping offsets from {0,8,16,0x40,0x50,4088,32752,100000,1 MiB} in either order / adjacent / far apart) x a sequence of 1-4 packets of lengths {0,1,7,8,9,64,1500,random} placed at different addresses x a generated schedule of (engine, packet) executions over interpreter, x86-64 JIT and Cranelift on the SAME VM object; for the fixed-metadata VM, in half of the cases, the probe is re-loaded half way through with set_program() and another pair of offsets (swapped / only the lower one moved / both moved); after a 'lower one moved' reload the vacated slot must read 0, as on a fresh VM. Probe programs: r1 at entry; r10 at entry; byte stores/loads at [r10-1] and [r10-512]; ldabsb/ldindb of the first packet byte; for the fixed-metadata VM *(r1+data_off), and *(r1+end_off) - *(r1+data_off), each read by the program itself and, in load-free programs, by a registered helper that is handed r1; for raw / metadata VMs the word a helper reads at *(r1). Oracle from the real addresses: r1 = metadata buffer / packet / 0 as documented; the stack region is disjoint from packet and metadata; packet loads return packet bytes; fixed VM: start pointer == address of the first packet byte when the packet is non-empty and end - start == length always, on every execution of the schedule and identically on the three engines. Non-trivial = fixed-metadata case with a non-empty packet, or a second-or-later execution; distinct by hash of (kind, offsets, lengths, schedule).",
+            rule: "case = VM kind (no-data, raw, metadata, fixed-metadata with a generated pair of non-overlapping offsets from {0,8,16,0x40,0x50,4088,32752,100000,1 MiB} in either order / adjacent / far apart) x a sequence of 1-4 packets of lengths {0,1,7,8,9,64,1500,random}, each at an address of its own or (half of the later ones) at the same start address / the same end address as its predecessor with another length x a generated schedule of (engine, packet) executions over interpreter, x86-64 JIT and Cranelift on the SAME VM object; for the fixed-metadata VM, in half of the cases, the probe is re-loaded half way through with set_program() and another pair of offsets (swapped / only the lower one moved / both moved); after a 'lower one moved' reload the vacated slot must read 0, as on a fresh VM. Probe programs: r1 at entry; r10 at entry; byte stores/loads at [r10-1] and [r10-512]; ldabsb/ldindb of the first packet byte; for the fixed-metadata VM *(r1+data_off), and *(r1+end_off) - *(r1+data_off), each read by the program itself and, in load-free programs, by a registered helper that is handed r1; for raw / metadata VMs the word a helper reads at *(r1). Oracle from the real addresses: r1 = metadata buffer / packet / 0 as documented; the stack region is disjoint from packet and metadata; packet loads return packet bytes; fixed VM: start pointer == address of the first packet byte when the packet is non-empty and end - start == length always, on every execution of the schedule and identically on the three engines. Non-trivial = fixed-metadata case with a non-empty packet, or a second-or-later execution; distinct by hash of (kind, offsets, lengths, schedule).",
             assumptions: &["for an empty packet only end - start == 0 is required of the fixed-metadata VM (DESIGN 6.2)", "out-of-stack accesses are covered by C02/C11, not here"],
         },
         run,
@@ -109,13 +109,21 @@ impl Mem9 {
             Mem9 { pkt: Arena::new(2, false), mbuff: Arena::new(1, false), shared: p as *mut Shared9 }
         }
     }
-    fn pkt_addr(&self, i: usize, len: usize) -> u64 {
-        // four slots of 2048 bytes; odd slots end-aligned within the slot
-        let base = self.pkt.data_start() as u64 + i as u64 * 2048;
-        if i % 2 == 1 {
+    fn pkt_addr(&self, c: &C9Case, i: usize) -> u64 {
+        // four slots of 2048 bytes; odd slots end-aligned within the slot. A packet with an odd
+        // fill byte is placed by the rule of its predecessor's slot: same start address (even
+        // slot) or same end address (odd slot) as that packet, usually with another length. The
+        // bytes are written before each execution.
+        let len = c.pkts[i].0;
+        let mut slot = i;
+        while slot > 0 && c.pkts[slot].1 & 1 == 1 {
+            slot -= 1;
+        }
+        let base = self.pkt.data_start() as u64 + slot as u64 * 2048;
+        if slot % 2 == 1 {
             base + 2048 - len as u64
         } else {
-            base + (i as u64 * 3) % 8
+            base + (slot as u64 * 3) % 8
         }
     }
     fn mbuff_addr(&self) -> u64 {
@@ -224,11 +232,15 @@ unsafe fn child(mem: &Mem9, c: &C9Case) {
     let sh = &mut *mem.shared;
     let kind = vm_kind(c);
     // packets
-    for (i, (len, fill)) in c.pkts.iter().enumerate() {
-        let a = mem.pkt_addr(i, *len as usize) as *mut u8;
-        for k in 0..*len as usize {
+    let fill_pkt = |i: usize| {
+        let (len, fill) = c.pkts[i];
+        let a = mem.pkt_addr(c, i) as *mut u8;
+        for k in 0..len as usize {
             *a.add(k) = fill.wrapping_add(k as u8).wrapping_mul(7) | 1;
         }
+    };
+    for i in 0..c.pkts.len() {
+        fill_pkt(i);
     }
     // user metadata buffer with pointers for the first packet (only its address matters here)
     let mb = mem.mbuff_addr() as *mut u8;
@@ -292,7 +304,8 @@ unsafe fn child(mem: &Mem9, c: &C9Case) {
                 cl_ok = Some(catch(std::panic::AssertUnwindSafe(|| vm.cranelift_compile())));
             }
             sh.stage = 100 * id as u32 + 10 * (*e as u32 % 3) + 2;
-            let (pa, pl, ml) = (mem.pkt_addr(*pi as usize, len as usize) as *mut u8, len as usize, c.mbuff_len as usize);
+            fill_pkt(*pi as usize);
+            let (pa, pl, ml) = (mem.pkt_addr(c, *pi as usize) as *mut u8, len as usize, c.mbuff_len as usize);
             let r = catch(std::panic::AssertUnwindSafe(|| {
                 let pkt: &'static mut [u8] = std::slice::from_raw_parts_mut(pa, pl);
                 let mbs: &'static mut [u8] = std::slice::from_raw_parts_mut(mb, ml);
@@ -349,7 +362,7 @@ pub fn check(mem: &Mem9, c: &C9Case) -> Verdict {
         for r in &sh.recs[..sh.n as usize] {
             let eng = ENGINES[r.engine as usize].name();
             let (len, fill) = c.pkts[r.pkt as usize];
-            let addr = mem.pkt_addr(r.pkt as usize, len as usize);
+            let addr = mem.pkt_addr(c, r.pkt as usize);
             let fail = |what: &str, detail: String| Verdict::fail(format!("{eng}:{what}"), format!("{detail}\nprogram {} engine {eng} packet #{} (addr {addr:#x}, len {len})\n{}", r.prog, r.pkt, desc()));
             if r.status != 1 {
                 return fail("probe-did-not-return", format!("status {} (2 = Err, 3 = panic)", r.status));
@@ -468,6 +481,17 @@ fn run(ctx: &Ctx) {
                 }
                 if c.pkts.iter().any(|p| p.0 == 0) {
                     st.class("has-empty-packet");
+                }
+                // consecutive executions on two different packets placed by the same slot rule
+                let mem = mem.borrow();
+                if c.schedule.windows(2).any(|w| {
+                    let (a, b) = (w[0].1 as usize, w[1].1 as usize);
+                    a != b && c.pkts[a].0 != c.pkts[b].0 && c.pkts[a].0.min(c.pkts[b].0) as usize <= 2048 && {
+                        let (pa, pb) = (mem.pkt_addr(c, a), mem.pkt_addr(c, b));
+                        pa == pb || pa + c.pkts[a].0 as u64 == pb + c.pkts[b].0 as u64
+                    }
+                }) {
+                    st.class("consecutive-packets-share-start-or-end-address");
                 }
                 if let VmKind::Fixed { data_off, end_off } = kind {
                     st.class(if data_off < end_off { "fixed:data<end" } else { "fixed:end<data" });
